@@ -200,7 +200,10 @@ func (e *env) partRestore() {
 // the address text form the wallet file just written could not be opened again ("invalid address size: 23")
 var witnessEntropies = []string{"bd806f1bc62439d39cd99fc2b43f6bba35a4d9c01de1898e"}
 
-var passwords = []string{"pw", "", "correct horse battery staple", "pässwörd ☃", "a", string(bytes.Repeat([]byte("x"), 300)), "pw ", "Pw"}
+// every pair (written with p, opened with q) is tried: passwords that differ only by a line ending, a space, a NUL, case or
+// Unicode normal form must be different passwords on the open path exactly as they are on the write path
+var passwords = []string{"pw", "", "correct horse battery staple", "pässwörd ☃", "a", string(bytes.Repeat([]byte("x"), 300)), "pw ", "Pw",
+	"pw\n", "pw\r\n", "pw\r", "pw\n\n", "\n", " pw", "pw\x00", "pw\t", "pa\u0308sswo\u0308rd ☃"}
 
 func catch(f func()) (panicked bool) {
 	defer func() {
